@@ -981,7 +981,7 @@ def findroot(ctx, f, x0, solver='secant', tol=None, verbose=False, verify=True, 
             xl = [x]
         else:
             xl = x
-        if verify and norm(f(*xl))**2 > tol: # TODO: better condition?
+        if verify and not norm(f(*xl))**2 <= tol: # TODO: better condition?
             raise ValueError('Could not find root within given tolerance. '
                              '(%s > %s)\n'
                              'Try another starting point or tweak arguments.'
